@@ -186,12 +186,35 @@ def _codes(rng):
                        codes.DCM.Person, codes.SCT.Area])
 
 
+def _bstr(rng, lim, cs=False):
+    """A VALID string for a VR with `lim` characters at most, length on a boundary."""
+    n = rng.choice([1, 2, lim - 1, lim, lim, rng.randint(1, lim)])
+    if cs:
+        return ('A' + ''.join(rng.choice('ABZ09_ ') for _ in range(n - 2)) + 'Z')[:max(n, 1)] if n > 1 else 'A'
+    body = ''.join(rng.choice('abcxyz0189 -._') for _ in range(n))
+    return ('a' + body[1:-1] + 'z') if n > 1 else 'a'
+
+
+CODE_VALUE_LENGTHS = [1, 2, 15, 16, 17, 18, 63, 64, 65]
+
+
 def _coded(rng):
+    """Coded concept with code value / designator / meaning / version on the length
+    boundaries of CodeValue (SH 16) vs LongCodeValue, SH 16, LO 64, and URN/URL forms."""
     from highdicom.sr import CodedConcept
-    v = rng.choice(['123', 'A-1', 'x' * 17, 'urn:oid:1.2.3', '9' * 16])
-    return CodedConcept(value=v, scheme_designator=rng.choice(['99X', 'SCT', 'DCM']),
-                        meaning=rng.choice(['m', 'some meaning', 'M' * 64]),
-                        scheme_version=rng.choice([None, '1.0']))
+    form = rng.random()
+    if form < 0.7:
+        n = rng.choice(CODE_VALUE_LENGTHS)
+        v = ''.join(rng.choice('0123456789ABCxyz-') for _ in range(n))
+        if v.startswith('urn'):
+            v = 'X' + v[1:]
+    elif form < 0.85:
+        v = rng.choice(['urn:oid:1.2', 'urn:oid:1.2.3.45', 'urn:oid:1.2.3.456', 'urn:oid:' + '1.2' * 20])
+    else:
+        v = rng.choice(['http://x.y/z', 'http://x.yz/abcd', 'http://x.yz/abcde', 'https://example.org/' + 'a' * 50])
+    return CodedConcept(value=v, scheme_designator=rng.choice(['99X', 'SCT', 'D', 'D' * 15, 'D' * 16]),
+                        meaning=rng.choice(['m', 'some meaning', 'M' * 63, 'M' * 64]),
+                        scheme_version=rng.choice([None, '1', '1.0', '2' * 15, '2' * 16]))
 
 
 def _item(rng, vt, depth=0):
@@ -205,7 +228,7 @@ def _item(rng, vt, depth=0):
     if vt == 'CODE':
         return sr.CodeContentItem(name, rng.choice([_coded(rng), _codes(rng)]), rel)
     if vt == 'TEXT':
-        return sr.TextContentItem(name, rng.choice(['t', 'long text ' * 20, 'x\\y']), rel)
+        return sr.TextContentItem(name, rng.choice(['t', 'long text ' * 20 + 'end', 'x\\y']), rel)
     if vt == 'NUM':
         from pydicom.sr.codedict import codes
         return sr.NumContentItem(name, rng.choice([1, 2.5, -3.25, 1e-3]), codes.UCUM.Millimeter,
@@ -267,19 +290,19 @@ def _sr_doc(rng, cls_name='Comprehensive3DSR', with_report=True):
                                                             [1.0, 1.0, 0.0]]), ct.FrameOfReferenceUID)
         else:
             region = sr.ImageRegion('POLYLINE', np.array([[1.0, 1.0], [2.0, float(rng.randint(1, 3))]]), src)
-        meas = [sr.Measurement(name=codes.SCT.Diameter if hasattr(codes.SCT, 'Diameter') else codes.DCM.Diameter,
-                               value=float(rng.randint(1, 100)) / 4, unit=codes.UCUM.Millimeter)
+        meas = [sr.Measurement(name=_coded(rng), value=float(rng.randint(1, 100)) / 4,
+                               unit=rng.choice([codes.UCUM.Millimeter, _coded(rng)]))
                 for _ in range(rng.randint(0, 2))]
         quals = [sr.QualitativeEvaluation(name=_coded(rng), value=_coded(rng)) for _ in range(rng.randint(0, 2))]
         groups.append(sr.PlanarROIMeasurementsAndQualitativeEvaluations(
-            tracking_identifier=sr.TrackingIdentifier(uid=hd.UID(), identifier=f'roi{g}'),
-            referenced_region=region, finding_type=codes.SCT.Neoplasm,
+            tracking_identifier=sr.TrackingIdentifier(uid=hd.UID(), identifier=_bstr(rng, 64)),
+            referenced_region=region, finding_type=rng.choice([codes.SCT.Neoplasm, _coded(rng)]),
             measurements=meas or None, qualitative_evaluations=quals or None))
     report = sr.MeasurementReport(observation_context=ctx, procedure_reported=codes.LN.CTUnspecifiedBodyRegion,
                                   imaging_measurements=groups, title=codes.DCM.ImagingMeasurementReport)
     cls = getattr(sr, cls_name)
     doc = cls(evidence=[ct], content=report, series_instance_uid=hd.UID(), series_number=1,
-              sop_instance_uid=hd.UID(), instance_number=1, manufacturer='m')
+              sop_instance_uid=hd.UID(), instance_number=1, manufacturer=_bstr(rng, 64))
     return doc, ct, report
 
 
@@ -308,7 +331,10 @@ def _seg(rng, seg_type=None, dtype=None):
             arr = np.array([rng.randint(0, nseg) for _ in range(n * rows * cols)], dtype=dt).reshape(n, rows, cols)
     if rng.random() < 0.3:
         arr = np.asfortranarray(arr)
-    descs = [synth.seg_description(k + 1, algorithm_type=rng.choice(['MANUAL', 'AUTOMATIC'])) for k in range(nseg)]
+    descs = [synth.seg_description(k + 1, label=_bstr(rng, 64), category=_coded(rng), ptype=_coded(rng),
+                                   algorithm_type=rng.choice(['MANUAL', 'AUTOMATIC']),
+                                   tracking_uid=rng.choice([None, hd.UID()]), tracking_id=_bstr(rng, 64))
+             for k in range(nseg)]
     kw = {}
     if rng.random() < 0.4:
         kw['pixel_measures'] = hd.PixelMeasuresSequence(pixel_spacing=(1.0, 1.0), slice_thickness=1.0)
@@ -337,11 +363,13 @@ def _ann(rng):
         gd = [np.array([[rng.randint(0, 400) / 8, rng.randint(0, 400) / 8] for _ in range(3)], dtype=dt)
               for _ in range(na)]
         vals = np.array([rng.randint(0, 100) / 4 for _ in range(na)], dtype=np.float32)
-        meas = [Measurements(codes.SCT.Area, vals, codes.UCUM.SquareMicrometer)] if rng.random() < 0.6 else None
+        meas = [Measurements(_coded(rng), vals, rng.choice([codes.UCUM.SquareMicrometer, _coded(rng)]))] \
+            if rng.random() < 0.6 else None
         arrays += gd + [vals]
-        groups.append(AnnotationGroup(g + 1, hd.UID(), f'L{g}', codes.SCT.Tissue, codes.SCT.Tissue, 'POLYLINE', gd,
+        groups.append(AnnotationGroup(g + 1, hd.UID(), _bstr(rng, 64), _coded(rng), _coded(rng), 'POLYLINE', gd,
                                       *rng.choice([('MANUAL', None), ('AUTOMATIC', hd.AlgorithmIdentificationSequence(
-                                          name='alg', version='1', family=codes.cid7162.ArtificialIntelligence))]),
+                                          name=_bstr(rng, 64), version=_bstr(rng, 64),
+                                          family=codes.cid7162.ArtificialIntelligence))]),
                                       measurements=meas))
     return sm, groups, arrays
 
@@ -451,7 +479,7 @@ CONVERTERS['SegmentDescription.from_dataset'] = dict(
 CONVERTERS['AlgorithmIdentificationSequence.from_sequence'] = dict(
     mode='std', call=lambda a, cp: _g('highdicom.AlgorithmIdentificationSequence')().from_sequence(a, copy=cp),
     arg=lambda rng: _plain_seq(_g('highdicom.AlgorithmIdentificationSequence')()(
-        name='alg', version=str(rng.randint(1, 9)), family=_codes(rng))))
+        name=_bstr(rng, 64), version=_bstr(rng, 64), family=_coded(rng))))
 CONVERTERS['PixelMeasuresSequence.from_sequence'] = dict(
     mode='std', call=lambda a, cp: _g('highdicom.PixelMeasuresSequence')().from_sequence(a, copy=cp),
     arg=lambda rng: _plain_seq(_g('highdicom.PixelMeasuresSequence')()(
@@ -585,12 +613,14 @@ def _b_seg(seg_type):
         import highdicom as hd
         src, arr, st, descs, kw = _seg(rng, seg_type=seg_type)
         args = [src, arr, descs] + ([kw['pixel_measures']] if 'pixel_measures' in kw else [])
+        strs = dict(manufacturer=_bstr(rng, 64), manufacturer_model_name=_bstr(rng, 64),
+                    software_versions=_bstr(rng, 64), device_serial_number=_bstr(rng, 64),
+                    content_label=_bstr(rng, 16, cs=True), content_description=_bstr(rng, 64),
+                    series_description=_bstr(rng, 64))
 
         def make():
             return hd.seg.Segmentation(src, arr, st, descs, series_instance_uid=hd.UID(), series_number=1,
-                                       sop_instance_uid=hd.UID(), instance_number=1, manufacturer='m',
-                                       manufacturer_model_name='mm', software_versions='1',
-                                       device_serial_number='sn', **kw)
+                                       sop_instance_uid=hd.UID(), instance_number=1, **strs, **kw)
         return args, make
     return build
 
@@ -613,7 +643,8 @@ def _b_pm(rng):
         vr = (0, int(np.iinfo(dt).max))
     if rng.random() < 0.3:
         arr = np.asfortranarray(arr)
-    maps = [[hd.pm.RealWorldValueMapping(lut_label='m0', lut_explanation='e', unit=codes.UCUM.NoUnits,
+    maps = [[hd.pm.RealWorldValueMapping(lut_label=_bstr(rng, 16), lut_explanation=_bstr(rng, 64),
+                                         unit=rng.choice([codes.UCUM.NoUnits, _coded(rng)]),
                                          value_range=vr, slope=2.0, intercept=-0.5)]]
     src = synth.ct_series(P, rows, cols)
 
@@ -695,7 +726,8 @@ def _b_pr(rng):
         return hd.pr.GrayscaleSoftcopyPresentationState(
             referenced_images=cts, series_instance_uid=hd.UID(), series_number=1, sop_instance_uid=hd.UID(),
             instance_number=1, manufacturer='m', manufacturer_model_name='mm', software_versions='1',
-            device_serial_number='sn', content_label='L', voi_lut_transformations=voi)
+            device_serial_number=_bstr(rng, 64), content_label=_bstr(rng, 16, cs=True),
+            content_description=_bstr(rng, 64), voi_lut_transformations=voi)
     return [cts, voi], make
 
 
@@ -710,11 +742,41 @@ def _b_legacy(rng):
     return [cts], make
 
 
+def _b_content(kind):
+    """Content classes built on their own (not SOP instances)."""
+    def build(rng):
+        import random
+        sub = rng.getrandbits(32)
+
+        def make():
+            import highdicom as hd
+            import synth
+            r = random.Random(sub)
+            if kind == 'coded_concept':
+                return _coded(r)
+            if kind == 'content_item':
+                return _item(r, r.choice(VALUE_TYPES))
+            if kind == 'segment_description':
+                return synth.seg_description(r.randint(1, 9), label=_bstr(r, 64), category=_coded(r),
+                                             ptype=_coded(r), algorithm_type='AUTOMATIC', tracking_uid=hd.UID(),
+                                             tracking_id=_bstr(r, 64))
+            if kind == 'algorithm_identification':
+                return hd.AlgorithmIdentificationSequence(
+                    name=_bstr(r, 64), version=_bstr(r, 64), family=_coded(r), source=_bstr(r, 64),
+                    parameters={_bstr(r, 8): _bstr(r, 8)})
+            raise ValueError(kind)
+        return [], make
+    return build
+
+
 CONSTRUCTORS = {
     'seg_binary': _b_seg('BINARY'), 'seg_fractional': _b_seg('FRACTIONAL'), 'seg_labelmap': _b_seg('LABELMAP'),
     'pm': _b_pm, 'sc': _b_sc, 'sr_comprehensive': _b_sr('ComprehensiveSR'),
     'sr_comprehensive3d': _b_sr('Comprehensive3DSR'), 'sr_enhanced': _b_sr('EnhancedSR'),
     'ko': _b_ko, 'ann': _b_ann, 'pr': _b_pr, 'legacy': _b_legacy,
+    'coded_concept': _b_content('coded_concept'), 'content_item': _b_content('content_item'),
+    'segment_description': _b_content('segment_description'),
+    'algorithm_identification': _b_content('algorithm_identification'),
 }
 
 
@@ -778,23 +840,90 @@ def _uids(ds, acc, path='ds'):
 HD_ROOT = '1.2.826.0.1.3680043.10.511.3.'
 
 
+STRING_VRS = ('AE', 'CS', 'SH', 'LO', 'ST', 'LT', 'UI', 'UR')
+
+
+def _validate_all(ds, path='ds'):
+    """Independent of WHEN pydicom validates: every string value held by the
+    object must pass pydicom's validator for its VR."""
+    from pydicom import config
+    from pydicom.valuerep import validate_value
+    for e in ds:
+        if e.VR == 'SQ':
+            for i, it in enumerate(e.value):
+                d = _validate_all(it, f'{path}.{e.keyword}[{i}]')
+                if d:
+                    return d
+        elif e.VR in STRING_VRS and e.value not in (None, ''):
+            vals = [e.value] if isinstance(e.value, str) else list(e.value)
+            for v in vals:
+                try:
+                    validate_value(e.VR, str(v), config.RAISE)
+                except Exception as ex:
+                    return f'{path}.{e.keyword} ({e.VR}) = {str(v)!r}: {ex}'[:300]
+    return None
+
+
 def run_constructor(c):
     import random
     import warnings
     import pydicom
     from pydicom import config
+    from pydicom.dataset import Dataset
     warnings.simplefilter('ignore')
     build = CONSTRUCTORS[c['target']]
-    args, make = build(random.Random(c['seed']))
-    before = [_snap(a) for a in args]
-    obj = make()
+    strict = c.get('strict', 'write')      # RAISE from construction on | only when writing
+    old = config.settings.writing_validation_mode
+    out = {'ran': True, 'strict': strict}
+    if strict == 'construct':
+        config.settings.writing_validation_mode = config.RAISE
+    try:
+        try:
+            args, make = build(random.Random(c['seed']))
+            before = [_snap(a) for a in args]
+            obj = make()
+        except Exception as ex:
+            if strict != 'construct':
+                raise
+            out['violation'] = (f"{c['target']}: valid arguments cannot be built with "
+                                f"writing_validation_mode=RAISE: {type(ex).__name__}: {ex}")[:400]
+            return out
+    finally:
+        config.settings.writing_validation_mode = old
     after = [_snap(a) for a in args]
-    out = {'ran': True, 'class': type(obj).__name__}
+    out['class'] = type(obj).__name__
     for i, (x, y) in enumerate(zip(before, after)):
         d = _first_diff(x, y, f'argument#{i}')
         if d:
             out['violation'] = f"{c['target']} constructor modified its input: {d}"
             return out
+    holder = obj
+    if not isinstance(obj, Dataset):      # a sequence class
+        holder = Dataset()
+        holder.ContentSequence = obj
+    d = _validate_all(holder)
+    if d:
+        out['violation'] = f"{c['target']}: constructed object holds a value pydicom refuses to write: {d}"
+        return out
+    if 'SOPInstanceUID' not in holder:
+        # content class: write it as an item of a bare dataset and read it back
+        wrap = Dataset()
+        wrap.ContentSequence = [holder]
+        config.settings.writing_validation_mode = config.RAISE
+        try:
+            b = io.BytesIO()
+            try:
+                wrap.save_as(b, implicit_vr=False, little_endian=True)
+            except Exception as ex:
+                out['violation'] = f"{c['target']}: strict write failed: {type(ex).__name__}: {ex}"[:400]
+                return out
+        finally:
+            config.settings.writing_validation_mode = old
+        back = pydicom.dcmread(io.BytesIO(b.getvalue()), force=True)
+        d = _cmp_ds(wrap, back)
+        if d:
+            out['violation'] = f"{c['target']}: read-back differs: {d}"
+        return out
     # identifiers in the file meta of the object as built (pydicom's writer would repair them)
     fm0 = getattr(obj, 'file_meta', None)
     if fm0 is None or str(fm0.get('MediaStorageSOPInstanceUID', '')) != str(obj.SOPInstanceUID) or \
@@ -804,7 +933,6 @@ def run_constructor(c):
                             f"{fm0.get('MediaStorageSOPClassUID', None) if fm0 is not None else None}, dataset has "
                             f"{obj.SOPInstanceUID} / {obj.SOPClassUID}")
         return out
-    old = config.settings.writing_validation_mode
     config.settings.writing_validation_mode = config.RAISE
     try:
         b = io.BytesIO()
@@ -927,8 +1055,10 @@ def gen_cases(rng, tier):
             for _ in range(2 * n):
                 cases.append({'kind': 'conv', 'target': t, 'copy': cp, 'seed': rng.getrandbits(32)})
     for t in sorted(CONSTRUCTORS):
-        for _ in range(4 * n):
-            cases.append({'kind': 'ctor', 'target': t, 'seed': rng.getrandbits(32)})
+        reps = 12 if t in ('coded_concept', 'content_item', 'segment_description') else 4
+        for i in range(reps * n):
+            cases.append({'kind': 'ctor', 'target': t, 'seed': rng.getrandbits(32),
+                          'strict': 'construct' if i % 2 else 'write'})
     return cases
 
 
